@@ -379,11 +379,11 @@ int main(int argc, char **argv) {
     for (auto &l : readLines(C.replay)) {
       std::vector<std::string> w = split(l);
       if (w[0] == "reset0" && w.size() >= 6) {
-        int devs = (int)w.size() - 5; char b[160]; snprintf(b, sizeof b, "reset0 %s %s %s %d %s", flavor, w[2].c_str(), w[3].c_str(), devs, w[4].c_str()); exec(b);
-      } else if (w[0] == "reset" && w.size() >= 5 && w[4].find(':') != std::string::npos) {
+        int devs = (int)w.size() - 5; char b[160]; snprintf(b, sizeof b, "reset0 %s %s %s %d %s %d", flavor, w[2].c_str(), w[3].c_str(), devs, w[4].c_str(), atoi(w[5].c_str())); exec(b);
+      } else if (w[0] == "reset" && w.size() >= 6 && w[5].find(':') != std::string::npos) {
         // recorded form "reset fl qsize mode now src:name..." -> regenerate: devices = number of src:name fields; origin = now-700
         int devs = (int)w.size() - 5; unsigned long long now = strtoull(w[4].c_str(), 0, 10);
-        char b[160]; snprintf(b, sizeof b, "reset %s %s %s %d %llu", flavor, w[2].c_str(), w[3].c_str(), devs, now >= 700 ? now - 700 : 0); exec(b);
+        char b[160]; snprintf(b, sizeof b, "reset %s %s %s %d %llu %d", flavor, w[2].c_str(), w[3].c_str(), devs, now >= 700 ? now - 700 : 0, atoi(w[5].c_str())); exec(b);
       } else exec(l);
     }
     endCase(); C.finish(); return 0;
